@@ -243,9 +243,9 @@ InterruptedCall == call.stop >= 0
 SolLabel(api) == IF api = "assume" THEN "C05.SatIsSolution" ELSE "C01.SolutionHolds"
 
 TrReturn(ev) ==
-    \* the harness stops a run after 60 000 polls (6 000 when every engine event is recorded): only
+    \* the harness stops a run after 500 000 polls (6 000 when every engine event is recorded): only
     \* the former is taken as evidence of non-termination, the latter is informational
-    /\ Mon(IF ev.polls >= 60000 THEN "C02.NoTermination" ELSE "C02x.CappedEarly", ~ev.capped, ev.polls)
+    /\ Mon(IF ev.polls >= 500000 THEN "C02.NoTermination" ELSE "C02x.CappedEarly", ~ev.capped, ev.polls)
     /\ Mon("C10.BackAtRoot", ~eng \/ level = 0, level)
     /\ CASE ev.res = "SAT" /\ ev.api \in {"satisfy", "assume"} ->
               /\ Mon("C01.Total", Len(ev.sol) = Len(vars)
@@ -299,7 +299,8 @@ TrIterEnd(ev) ==
               /\ Mon(IF call.base # sol THEN "C10.StaleInternalClauses" ELSE "C03.Complete",
                      sol = {}, <<"missing", sol>>)
               /\ Mon("C03.EndKind", yielded = {}, "UNSAT after a solution")
-         [] OTHER -> Mon("C11.UnknownOnlyIfInterrupted", InterruptedCall \/ call.polls >= 6000,
+         \* (polls are only counted when the engine events are recorded)
+         [] OTHER -> Mon("C11.UnknownOnlyIfInterrupted", InterruptedCall \/ call.polls >= 6000 \/ ~eng,
                          "iteration ended UNKNOWN without interrupt")
     /\ UNCHANGED evars
     /\ UNCHANGED <<scn, eng, before>>
@@ -333,8 +334,14 @@ TrCore(ev) ==
     /\ UNCHANGED evars
     /\ UNCHANGED <<scn, eng, before>>
 
-\* some assumption is inconsistent with the model all by itself
-SomeAssumptionRefuted == \E i \in DOMAIN call.assum : {a \in sol : TrueP(call.assum[i], a)} = {}
+\* some assumption is already false when it is posted: inconsistent with the model all by itself,
+\* or left without a value by the earlier assumptions over the same variable (other than the
+\* syntactic pair p / ~p, which the library reports as ConflictingAssumption)
+SomeAssumptionRefuted ==
+    \E i \in DOMAIN call.assum :
+        \/ {a \in sol : TrueP(call.assum[i], a)} = {}
+        \/ LET v == call.assum[i].x.v IN
+           {xv \in vars[v] : \A j \in 1..i : call.assum[j].x.v = v => TrueOnVal(call.assum[j], xv)} = {}
 
 TrCorePanic(ev) ==
     /\ Mon(IF SomeAssumptionRefuted THEN "C10.CorePanicOnRefutedAssumption" ELSE "C10.NoPanic",
